@@ -3,10 +3,17 @@
 -/
 import Corerad.Model.Lifetime
 import Corerad.Spec.C16
+import Corerad.Gen.Main
 
 namespace Corerad.Props.C16
 
 open Corerad Corerad.Model
+
+/-- The epoch handed to the configuration parser is the daemon's start-up instant
+    (`config.Parse(f, time.Now())` in main): it is never the zero time, so the plugins' "zero
+    epoch" panic is unreachable from the daemon, and "daemon start + configured lifetime" is the
+    deadline the theorems below are about. -/
+theorem gen_epoch_is_start_time : Gen.Main.epochIsStartTime = true := by decide
 
 /-- The advertised lifetime is the time remaining until `epoch + L`, clamped at zero. -/
 theorem eq_clamped_remaining (epoch : Time) (L : Dur) (now : Time) :
